@@ -62,6 +62,26 @@ impl DetectProp for C07 {
             let (_, t) = *rng.pick(TEXTS);
             c.bytes = enc_bytes(t, *rng.pick(&["utf-16le", "utf-16be"])).unwrap_or_default();
             c.tag = "utf16-no-bom".into();
+        } else if idx % 10 == 5 || idx % 10 == 9 {
+            // no mark, but the content *declares* UTF-16 (either byte order, several spellings) and reads as clean
+            // UTF-16 when taken two bytes at a time: only letters and digits, even length
+            let label = *rng.pick(&["utf-16be", "utf-16le", "UTF-16BE", "utf-16", "unicodefffe", "csunicode", "ucs-2", "unicode"]);
+            let decl = *rng.pick(&["charset=", "encoding=", "coding:"]);
+            let letters: String = (0..rng.range(0, 40)).map(|_| (b'a' + rng.below(26) as u8) as char).collect();
+            let mut text = match rng.below(3) {
+                0 => format!("{}{}", decl, label),
+                1 => format!("{}{}{}", letters, decl, label),
+                _ => format!("lang=en;{}{}", decl, label),
+            };
+            if text.len() % 2 == 1 {
+                text.insert(0, 'x');
+            }
+            c.bytes = text.into_bytes();
+            c.sett = Sett::default();
+            if idx % 20 == 9 {
+                c.sett.fb = false;
+            }
+            c.tag = "utf16-declared-no-bom".into();
         }
         c
     }
